@@ -51,7 +51,7 @@ theorem afm_write_read_crlf (m : Metrics) (h : Representable m) : AFM.read (writ
 
 /-- C15, "independent writer": a text whose lines carry the same tokens as the lines `Write` prints –
 whatever white space separates them (blanks, tabs, Unicode spaces, several of them, trailing ones),
-`\n` or `\r\n` line ends, empty `;` groups or a missing final `;`, and the glyph lines in any
+`\n`, `\r\n` or `\r` line ends, empty `;` groups or a missing final `;`, and the glyph lines in any
 order `es` – is read to the same value; leading white space (an indented `EndCharMetrics` included)
 makes no difference either.  (`SameTokens` compares, line by line, `strings.Fields` of
 the line and of its `;`-separated groups.)  Not covered: another order of the header keys or of the
@@ -135,7 +135,7 @@ def smallText : Bytes :=
   [83, 116, 97, 114, 116, 70, 111, 110, 116, 77, 101, 116, 114, 105, 99, 115, 32, 52, 46, 49, 10, 70, 111, 110, 116, 78, 97, 109, 101, 32, 84, 10, 70, 117, 108, 108, 78, 97, 109, 101, 32, 84, 32, 82, 101, 103, 117, 108, 97, 114, 10, 83, 116, 97, 114, 116, 67, 104, 97, 114, 77, 101, 116, 114, 105, 99, 115, 32, 50, 10, 67, 32, 54, 53, 32, 59, 32, 87, 88, 32, 53, 48, 48, 32, 59, 32, 78, 32, 65, 32, 59, 32, 66, 32, 48, 32, 48, 32, 49, 48, 32, 49, 48, 32, 59, 32, 76, 32, 66, 32, 65, 66, 32, 59, 10, 67, 32, 54, 54, 32, 59, 32, 87, 88, 32, 54, 48, 48, 32, 59, 32, 78, 32, 66, 32, 59, 32, 66, 32, 48, 32, 45, 53, 32, 50, 48, 32, 50, 48, 32, 59, 10, 69, 110, 100, 67, 104, 97, 114, 77, 101, 116, 114, 105, 99, 115, 10, 83, 116, 97, 114, 116, 75, 101, 114, 110, 68, 97, 116, 97, 10, 83, 116, 97, 114, 116, 75, 101, 114, 110, 80, 97, 105, 114, 115, 32, 49, 10, 75, 80, 88, 32, 65, 32, 66, 32, 45, 50, 48, 10, 69, 110, 100, 75, 101, 114, 110, 80, 97, 105, 114, 115, 10, 69, 110, 100, 75, 101, 114, 110, 68, 97, 116, 97, 10, 69, 110, 100, 70, 111, 110, 116, 77, 101, 116, 114, 105, 99, 115, 10]
 
 /-- the same text with every line indented by two blanks -/
-def smallTextIndented : Bytes := unlines ((splitLines smallText).map (fun l => [32, 32] ++ l))
+def smallTextIndented : Bytes := unlines ((scanLines smallText).map (fun l => [32, 32] ++ l))
 
 /-- the indented text reads to the same metrics as the plain one; two glyphs and the kerning pair are
 there (before the fix the indented `EndCharMetrics` was not seen and the kerning data was lost) -/
@@ -143,6 +143,65 @@ example : AFM.read smallTextIndented = AFM.read smallText ∧
     (match AFM.read smallTextIndented with
      | .ok m => decide (m.glyphs.length = 2) && decide (m.kern = [⟨[65], [66], -20⟩])
      | _ => false) = true := by decide +kernel
+
+/-! ### the three line-end conventions (reader fix: `\n`, `\r\n` and a bare `\r`) -/
+
+/-- the same as `afm_write_read_crlf` with every `\n` of the written text replaced by a bare `\r`
+(classic Mac OS line ends) -/
+theorem afm_write_read_cr (m : Metrics) (h : Representable m) : AFM.read (writeCR m) = .ok m := by
+  rw [read_eq, readCore_writeCR m h.1]
+  exact readCore_write_representable m h
+
+/-- lines without `\r` and `\n`, each followed by a line end of its own choice (`IsTerm`: `\n`,
+`\r\n` or `\r`; `joinWith` pairs the two lists), are split back into exactly those lines.  The one
+exception is excluded by `NoMerge`: a bare `\r` followed by an *empty* line that is ended by `\n`
+is the single line end `\r\n` – in Go as well; without empty lines there is no exception
+(`scanLines_line_ends_nonempty`). -/
+theorem scanLines_line_ends (ls ts : List Bytes) (hlen : ls.length = ts.length)
+    (hl : ∀ l ∈ ls, 10 ∉ l ∧ 13 ∉ l) (ht : ∀ t ∈ ts, IsTerm t) (hnm : NoMerge ls ts) :
+    scanLines (joinWith ls ts) = ls :=
+  scanLines_joinWith ls ts hlen hl ht hnm
+
+theorem scanLines_line_ends_nonempty (ls ts : List Bytes) (hlen : ls.length = ts.length)
+    (hl : ∀ l ∈ ls, 10 ∉ l ∧ 13 ∉ l ∧ l ≠ []) (ht : ∀ t ∈ ts, IsTerm t) :
+    scanLines (joinWith ls ts) = ls :=
+  scanLines_joinWith ls ts hlen (fun l h => ⟨(hl l h).1, (hl l h).2.1⟩) ht
+    (noMerge_of_nonempty ls ts (fun l h => (hl l h).2.2))
+
+/-- the reader does not see which line ends a text uses: the same lines with any two choices of
+line ends, also mixed ones, are read alike -/
+theorem afm_line_ends_blind (ls ts1 ts2 : List Bytes) (h1 : ls.length = ts1.length)
+    (h2 : ls.length = ts2.length) (hl : ∀ l ∈ ls, 10 ∉ l ∧ 13 ∉ l)
+    (ht1 : ∀ t ∈ ts1, IsTerm t) (ht2 : ∀ t ∈ ts2, IsTerm t)
+    (hn1 : NoMerge ls ts1) (hn2 : NoMerge ls ts2) :
+    AFM.read (joinWith ls ts1) = AFM.read (joinWith ls ts2) := by
+  rw [read_eq, read_eq]
+  unfold readCore
+  rw [scanLines_joinWith ls ts1 h1 hl ht1 hn1, scanLines_joinWith ls ts2 h2 hl ht2 hn2]
+
+/-- in particular the three pure conventions: `\n` only, `\r\n` only, `\r` only -/
+theorem afm_line_ends_blind_pure (ls : List Bytes) (hl : ∀ l ∈ ls, 10 ∉ l ∧ 13 ∉ l) :
+    AFM.read (unlinesCRLF ls) = AFM.read (unlines ls) ∧ AFM.read (unlinesCR ls) = AFM.read (unlines ls) := by
+  simp only [read_eq, readCore, scanLines_unlines ls hl, scanLines_unlinesCRLF ls hl, scanLines_unlinesCR ls hl,
+    and_self]
+
+/-- the small text with bare `\r` line ends -/
+def smallTextCR : Bytes := smallText.map (fun b => if b = 10 then 13 else b)
+
+/-- with `\r` line ends the small text reads to the same metrics as with `\n`: two glyphs and the
+kerning pair (before the fix the whole file was one line and gave empty metrics) -/
+example : AFM.read smallTextCR = AFM.read smallText ∧
+    (match AFM.read smallTextCR with
+     | .ok m => decide (m.glyphs.length = 2) && decide (m.kern = [⟨[65], [66], -20⟩])
+     | _ => false) = true := by decide +kernel
+
+/-- the end of the text, as in Go: `"a\n"`, `"a"`, `"a\r"`, `"a\r\n"`, `"a\n\n"`, `"\r\r\n"`, `""` -/
+example : scanLines [97, 10] = [[97]] ∧ scanLines [97] = [[97]] ∧ scanLines [97, 13] = [[97]] ∧
+    scanLines [97, 13, 10] = [[97]] ∧ scanLines [97, 10, 10] = [[97], []] ∧
+    scanLines [13, 13, 10] = [[], []] ∧ scanLines [] = [] := by decide +kernel
+
+/-- the excluded combination really is different: `a`, `\r`, empty line, `\n` is one line -/
+example : scanLines (joinWith [[97], []] [[13], [10]]) = [[97]] := by decide +kernel
 
 /-! ### `Write` does not depend on the order in which the glyphs are listed (`FontBBoxPDF` fix) -/
 
@@ -244,6 +303,11 @@ theorem roundM_representable (m : Metrics) (h : Representable m) : roundM m = m 
 #print axioms indented_EndCharMetrics
 #print axioms indented_EndCharMetrics_ascii
 #print axioms indented_line
+#print axioms afm_write_read_cr
+#print axioms scanLines_line_ends
+#print axioms scanLines_line_ends_nonempty
+#print axioms afm_line_ends_blind
+#print axioms afm_line_ends_blind_pure
 #print axioms fontBBox_order_independent
 #print axioms write_order_independent
 #print axioms fontBBox_of_sorted
